@@ -70,6 +70,18 @@ f('C05', 'order1-direction-greville-zerodivision', 'raise_order on an object wit
 f('C05', 'lower-order-to-constants-rejected', 'lower_order refuses to return to order 1: not a left inverse of raise_order on order-1 objects', False, {'call': 'Curve(BSplineBasis(1,[0,1]),[[1.,2.]]).raise_order(1).lower_order(1)'})
 f('C05', 'curve-dimension1-controlpoints-flattened', 'Curve.raise_order on a 1-D curve: spsolve returns a 1-D array, controlpoints lose their last axis (pardim becomes 0)', True, {'call': 'c=Curve(BSplineBasis(2),[[1.],[2.]]); c.raise_order(1); c.controlpoints.shape'})
 
+f('C07', 'split-periodic-small-basis', 'split on a periodic direction with n < p+k functions gives wrong domain/values or IndexError (periodic insert_knot defect, see C04)', False, {'call': 'Curve(BSplineBasis(3,[-2,-1,0,1,2,3,4],1),[[0,0],[1,2]],raw=True).split(0.5)'})
+f('C07', 'split-periodic-first-point-outside-base-period', 'split of a periodic direction at a first point outside [start,end): continuity/insert_knot wrap the value but bisect_left uses it raw (garbage, ValueError or IndexError)', False, {'call': 'c.split(0.0) with periodic domain [1,5]'})
+f('C07', 'append-order-1-pieces', 'Curve.append of order-1 pieces drops a control point that is not shared', False, {'call': 'c=Curve(BSplineBasis(1,[0,1,2,3]),[[1,0],[2,0],[3,0]]); ps=c.split(1.0); ps[0].append(ps[1])'})
+f('C07', 'append-at-discontinuous-knot', 'split at a knot of multiplicity >= p followed by append does not reproduce the (discontinuous) original', False, {'call': 'BSplineBasis(2,[0,0,1,1,2,2]) curve split at 1 and appended'})
+f('C07', 'subdivide-periodic-direction-without-split', 'refinement.subdivide on a periodic direction with n=0 raises IndexError', False, {'call': 'subdivide([periodic curve], 0)'})
+f('C07', 'subdivide-periodic-direction-single-split', 'refinement.subdivide on a periodic direction with one split point: split returns a single object, indexing it fails', True, {'call': 'subdivide([periodic curve], 1)'})
+f('C07', 'subdivide-periodic-direction', 'refinement.subdivide on a periodic direction whose split point is the domain end raises IndexError (periodic insert_knot(end))', False, {'call': 'subdivide([periodic surface p=4], 3)'})
+
+f('C08', 'make-periodic-weights-continuity>=2', 'make_periodic(split(c, start), k) does not give back the control points of c for continuity k >= 2 (intermediate merge weights are wrong)', False, {'call': 'Curve(BSplineBasis(4,range(-3,10),2),[[0],[1],[4],[9],[16],[25]],raw=True).split(0).make_periodic(2)'})
+f('C08', 'periodic-insert-small-basis', 'split / lower_periodic / round trip on periodic bases with n < p+k give wrong geometry or NaN (periodic insert_knot defect, see C04)', False, {'call': 'Curve(BSplineBasis(2,[-1,0,1,2],0),[[1,-1.5,1.25,1.25]],rational=True,raw=True).lower_periodic(-1)'})
+f('C08', 'constructor-accepts-non-periodic-knot-vector', 'the constructor checks only p+k-1 spacings and not the seam multiplicity: accepted periodic vectors that are not periodic/continuous at the seam', False, {'call': 'Curve(BSplineBasis(3,[-1,0,1,2,3,4,5],0),[[0,0],[1,0],[0,1]])'})
+
 FIXED = []
 if __name__ == '__main__':
     p = os.path.join(os.path.dirname(os.path.dirname(os.path.abspath(__file__))), 'known_findings.json')
